@@ -133,6 +133,7 @@ type TPkt struct {
 	// RecvStep / EndStep are the history steps of the committed receive and terminal message.
 	RecvStep, EndStep int
 	Terminal          string // "ack-ok" | "ack-err" | "timeout"
+	EdgeH             int64  // destination height of the block that carried the last erecv (0: none)
 }
 
 // InFlight reports whether the tokens of the packet are neither delivered nor refunded.
